@@ -141,7 +141,9 @@ class QNoiseScheduler(tf.keras.callbacks.Callback):
     all_quantizers = []
     for layer in model.layers:
       # A list of attributes holding the quantizer(s).
-      for attr in ["quantizers", "quantizer"]:
+      # "activation" holds the quantizer passed as activation= to layers
+      # such as QDense and QConv2D.
+      for attr in ["quantizers", "quantizer", "activation"]:
         if hasattr(layer, attr):
           quantizers = getattr(layer, attr)
           quantizers = quantizers if attr == "quantizers" else [quantizers]
